@@ -26,7 +26,7 @@
     with 3a over all tables at once, and the scripts whose dropped generated-name index
     is matched with an unnamed one. *)
 From Coq Require Import List NArith Bool Arith Permutation.
-From Atlas Require Import Base.Bytes Diff.Schema Diff.DiffModel Diff.DiffSqlite Diff.DiffDialects Diff.DiffProofs Diff.DiffSqliteProofs Diff.DiffDialectsProofs Diff.DiffSqliteCopy Diff.DiffMysqlVariants Diff.DiffMysqlVariantsProofs Diff.DiffUnnamedProofs.
+From Atlas Require Import Base.Bytes Diff.Schema Diff.DiffModel Diff.DiffSqlite Diff.DiffDialects Diff.DiffProofs Diff.DiffSqliteProofs Diff.DiffDialectsProofs Diff.DiffSqliteCopy Diff.DiffMysqlVariants Diff.DiffMysqlVariantsProofs Diff.DiffUnnamedProofs Diff.DiffSqliteNumFk Diff.DiffRealm Diff.DiffRealmProofs.
 Import ListNotations.
 
 (** 1a. Generic: for every driver whose callbacks report nothing on identical
@@ -594,6 +594,164 @@ Theorem C02_mysql_fill_idempotent :
   forall v p, fill_pair v (fill_pair v p) = fill_pair v p.
 Proof. exact fill_pair_idempotent. Qed.
 
+(** * Round 5 *)
+
+(** 7a. SQLite, foreign keys under numeric symbols ("0", "1", ...: the ordinals the inspector
+    reports for unnamed constraints).  Normalize never pairs such a key of the current side by
+    its symbol -- only by shape (sameFK): its loop is the shape-only loop; and a numeric key
+    without a same-shape partner keeps its symbol and claims no desired key, even when the
+    desired side has a key under the same ordinal. *)
+Theorem C02_sqlite_numeric_fk_symbols :
+  forall n1 n2 fk1 tofks used, is_uint (f_symbol fk1) = true ->
+  normalize_fk_inner n1 n2 fk1 tofks used = normalize_fk_inner_shape n1 n2 fk1 tofks used /\
+  ((forall fk2, In fk2 tofks -> same_fk n1 n2 fk1 fk2 = false) ->
+   normalize_fk_inner n1 n2 fk1 tofks used = (fk1, used)).
+Proof.
+  intros n1 n2 fk1 tofks used U. split.
+  - exact (normalize_fk_inner_numeric n1 n2 fk1 tofks used U).
+  - exact (normalize_fk_inner_numeric_unpaired n1 n2 fk1 tofks used U).
+Qed.
+
+(** 7b. "one DropForeignKey per dropped key and nothing else" is FALSE for SQLite when both
+    sides are inspected states (numeric symbols) and the dropped key is not the last one: the
+    unpaired key keeps its ordinal (7a), which on the desired side -- numbered without it --
+    belongs to another key; tableDiff looks it up by symbol, finds that other key and reports
+    ModifyForeignKey (columns, referenced table) instead of DropForeignKey.  Witness: t with
+    keys 0: x->a, 1: y->b, 2: z->c; desired 0: x->a, 1: z->c (y->b dropped), and the same with
+    the first key dropped.  Reproduced on the Go code: harness family numfk-shift (27 cases),
+    known finding C02-sqlite-dropped-numeric-fk-ordinal-reused.  Dropping the last key, adding
+    a key anywhere and reordering are answered correctly (Example C02_ex_numfk_shift). *)
+Theorem C02_sqlite_numeric_fk_drop_refuted :
+  exists from to1 to2,
+    forallb (fun f => is_uint (f_symbol f)) (flat_map t_fks (s_tables from ++ s_tables to1 ++ s_tables to2)) = true /\
+    SchemaDiff sqlite_driver no_skip from to1 <> Some [ModifyTable [116]%N [DropForeignKey [49]%N]] /\
+    SchemaDiff sqlite_driver no_skip from to1 =
+      Some [ModifyTable [116]%N [ModifyForeignKey [49]%N (N.lor (N.lor ChangeRefTable ChangeRefColumn) ChangeColumn)]] /\
+    SchemaDiff sqlite_driver no_skip from to2 <> Some [ModifyTable [116]%N [DropForeignKey [48]%N]].
+Proof.
+  exists n_from, n_to_mid, n_to_first. split; [exact n_all_numeric|]. split; [|split].
+  - rewrite n_diff_mid. discriminate.
+  - exact n_diff_mid.
+  - rewrite n_diff_first. discriminate.
+Qed.
+
+(** 8a. RealmDiff is exact on every script of schemas (keyed by name; the desired realm may
+    list them in any order): per dropped schema one DropSchema, per kept schema exactly
+    schemaDiff's list (8b), per added schema AddSchema followed by one AddTable per table of it
+    -- each through the skip filter on its own --, nothing else.  For every driver [D], every
+    SchemaAttrDiff [A], every skip filter. *)
+Theorem C02_exact_realm :
+  forall (D : DiffDriver) (A : realm -> schema_x -> schema_x -> list sattr) (rskip : rtag -> bool)
+         from to ps adds,
+  r_schemas from = map fst ps -> script_ok sx_name ps adds ->
+  Permutation (r_schemas to) (kept ps ++ adds) ->
+  (forall s s', In (s, Some s') ps -> schema_diff_x D A rskip from s s' <> None) ->
+  exists adds', Permutation adds adds' /\
+    RealmDiff D A rskip from to =
+    Some (rs_expected D A rskip from ps ++ flat_map (add_schema_changes rskip) adds').
+Proof. exact realm_diff_exact. Qed.
+
+(** 8b. schemaDiff with schema attributes on every script of tables: one ModifySchema carrying
+    exactly SchemaAttrDiff's list iff that list is not empty, then 2g's table changes. *)
+Theorem C02_exact_schema_attrs :
+  forall (D : DiffDriver) (A : realm -> schema_x -> schema_x -> list sattr) (rskip : rtag -> bool)
+         r from to ps adds,
+  sx_name from = sx_name to -> s_tables (sx_schema from) = map fst ps -> script_ok t_name ps adds ->
+  Permutation (s_tables (sx_schema to)) (kept ps ++ adds) ->
+  (forall t t', In (t, Some t') ps -> table_diff D (skip_t rskip) t t' <> None) ->
+  exists adds', Permutation adds adds' /\
+    schema_diff_x D A rskip r from to =
+    Some (modify_schema_expected A rskip r from to
+          ++ map (InSchema (sx_name to))
+               (tbl_expected D (skip_t rskip) ps
+                ++ add_or_skip_s (skip_t rskip) (map (fun t => AddTable (t_name t)) adds'))).
+Proof. exact schema_diff_x_exact. Qed.
+
+(** 8c. An added schema: AddSchema (unless skipped) followed by its AddTables (unless skipped),
+    the two kinds filtered independently. *)
+Theorem C02_realm_add_schema :
+  forall (rskip : rtag -> bool) s,
+  let tables := map (InSchema (sx_name s))
+                    (add_or_skip_s (skip_t rskip) (map (fun t => AddTable (t_name t)) (s_tables (sx_schema s)))) in
+  (rskip RtAddSchema = false -> add_schema_changes rskip s = AddSchema (sx_name s) :: tables) /\
+  (rskip RtAddSchema = true -> add_schema_changes rskip s = tables).
+Proof.
+  intros rskip s. split.
+  - exact (add_schema_changes_kept rskip s).
+  - exact (add_schema_changes_skipped rskip s).
+Qed.
+
+(** 8d. The realm with itself, with a copy, with the schemas (and everything inside them) in
+    any other order: empty, for every driver satisfying the laws whose SchemaAttrDiff reports
+    nothing on equal attributes, for every skip filter. *)
+Theorem C02_perm_empty_realm :
+  forall (D : DiffDriver) (A : realm -> schema_x -> schema_x -> list sattr) (rskip : rtag -> bool)
+         (dwf : table -> Prop) r r',
+  refl_laws D -> sim_laws D dwf -> attr_refl_law A ->
+  wf_realm dwf r -> realm_perm r r' -> RealmDiff D A rskip r r' = Some [].
+Proof. exact (fun D A rskip dwf r r' => realm_diff_perm D A rskip dwf r r'). Qed.
+
+Theorem C02_self_empty_realm :
+  forall (D : DiffDriver) (A : realm -> schema_x -> schema_x -> list sattr) (rskip : rtag -> bool)
+         (dwf : table -> Prop) r,
+  refl_laws D -> sim_laws D dwf -> attr_refl_law A -> wf_realm dwf r -> RealmDiff D A rskip r r = Some [].
+Proof. exact (fun D A rskip dwf r => realm_diff_self D A rskip dwf r). Qed.
+
+(** 8e. ... which holds for the three community drivers (every MySQL server variant, every
+    PostgreSQL schema scope). *)
+Theorem C02_realm_laws :
+  attr_refl_law sqlite_schema_attr_diff /\ attr_refl_law mysql_schema_attr_diff /\
+  forall ns, attr_refl_law (pg_schema_attr_diff ns).
+Proof. exact (conj sqlite_attr_refl (conj mysql_attr_refl pg_attr_refl)). Qed.
+
+Theorem C02_realm_perm_empty_dialects :
+  (forall rskip r r', wf_realm sqlite_dwf r -> realm_perm r r' -> sqlite_realm_diff rskip r r' = Some []) /\
+  (forall v rskip r r', wf_realm (mysql_dwf_v v) r -> realm_perm r r' -> mysql_realm_diff_v v rskip r r' = Some []) /\
+  (forall ns rskip r r', wf_realm pg_dwf r -> realm_perm r r' -> pg_realm_diff_ns ns rskip r r' = Some []).
+Proof.
+  split; [|split].
+  - intros rskip r r'. exact (realm_diff_perm sqlite_driver _ rskip sqlite_dwf r r' sqlite_refl_laws sqlite_sim_laws sqlite_attr_refl).
+  - intros v rskip r r'. exact (realm_diff_perm (mysql_driver_v v) _ rskip (mysql_dwf_v v) r r' (mysql_refl_laws_v v) (mysql_sim_laws_v v) mysql_attr_refl).
+  - intros ns rskip r r'. exact (realm_diff_perm (pg_driver_ns ns) _ rskip pg_dwf r r' (pg_refl_laws_ns ns) (pg_sim_laws_ns ns) (pg_attr_refl ns)).
+Qed.
+
+(** 8f. MySQL SchemaAttrDiff, per attribute (charset, collation -- the same switch): attribute
+    added -> AddAttr; both present -> ModifyAttr iff the values differ; attribute removed from
+    the desired schema -> ModifyAttr to the realm's value iff the realm has one and it differs
+    (a charset cannot be dropped), else nothing; absent on both sides -> nothing. *)
+Theorem C02_mysql_schema_attr_exact :
+  forall a from top to,
+  match from, to with
+  | None, None => mysql_attr_change a from top to = []
+  | None, Some t => mysql_attr_change a from top to = [SAddAttr a t]
+  | Some f, Some t => (f = t -> mysql_attr_change a from top to = []) /\
+                      (f <> t -> mysql_attr_change a from top to = [SModifyAttr a f t])
+  | Some f, None =>
+      match top with
+      | None => mysql_attr_change a from top to = []
+      | Some p => (f = p -> mysql_attr_change a from top to = []) /\
+                  (f <> p -> mysql_attr_change a from top to = [SModifyAttr a f p])
+      end
+  end.
+Proof. exact mysql_attr_change_exact. Qed.
+
+(** 8g. sqlx.CommentDiff (PostgreSQL schema comments; the same function serves table comments):
+    a comment added -> AddAttr unless it is empty; removed -> ModifyAttr to the empty comment;
+    both present -> ModifyAttr iff the unquoted texts differ. *)
+Theorem C02_comment_diff_exact :
+  forall from to,
+  match from, to with
+  | None, None => comment_diff from to = []
+  | None, Some t => (t = [] -> comment_diff from to = []) /\
+                    (t <> [] -> comment_diff from to = [SAddAttr ATTR_COMMENT t])
+  | Some f, None => comment_diff from to = [SModifyAttr ATTR_COMMENT f []]
+  | Some f, Some t =>
+      forall v1 v2, unquote f = Some v1 -> unquote t = Some v2 ->
+      (v1 = v2 -> comment_diff from to = []) /\
+      (v1 <> v2 -> comment_diff from to = [SModifyAttr ATTR_COMMENT f t])
+  end.
+Proof. exact comment_diff_exact. Qed.
+
 (** * Non-vacuity: concrete inputs (vm_compute) *)
 Definition x_a : column := mkColumn [97]%N 2 [105;110;116]%N false None None None.
 Definition x_b : column := mkColumn [98]%N 3 [116;101;120;116]%N true (Some (DLit [39;120;39]%N)) None None.
@@ -736,6 +894,58 @@ Proof. split; vm_compute; reflexivity. Qed.
 Example C02_ex_no_check : mysql_table_attr_diff_v x_v57 x_t x_t = None.
 Proof. vm_compute. reflexivity. Qed.
 
+(* round 5 *)
+Example C02_ex_numfk_shift :
+  SchemaDiff sqlite_driver no_skip n_from n_to_perm = Some [] /\
+  SchemaDiff sqlite_driver no_skip n_from n_to_add = Some [ModifyTable [116]%N [AddForeignKey [48]%N]] /\
+  SchemaDiff sqlite_driver no_skip n_from n_to_last = Some [ModifyTable [116]%N [DropForeignKey [50]%N]].
+Proof. exact (conj n_diff_perm (conj n_diff_add n_diff_last)). Qed.
+Example C02_ex_numfk_unpaired :
+  normalize_fk_inner [116]%N [116]%N (n_fk 49 121 98) [n_fk 48 120 97; n_fk 49 122 99] [true; false]
+  = (n_fk 49 121 98, [true; false]).
+Proof. vm_compute. reflexivity. Qed.
+Definition x_utf8 : str := [117;116;102;56;109;98;52]%N.
+Definition x_latin1 : str := [108;97;116;105;110;49]%N.
+Definition x_sx (n : N) (cs : option str) (ts : list table) : schema_x := mkSchemaX (mkSchema [n] ts) cs None None.
+Definition x_r1 : realm := mkRealm (Some x_utf8) None [x_sx 97 (Some x_latin1) [x_t]; x_sx 98 None []].
+(* schema a: charset attribute removed (-> the realm's utf8mb4), table t dropped; schema b dropped; schema c (one table) added *)
+Definition x_r2 : realm := mkRealm None None [x_sx 99 None [x_t]; x_sx 97 None []].
+Example C02_ex_realm :
+  mysql_realm_diff_v x_v80 (fun _ => false) x_r1 x_r2 =
+  Some [ModifySchema [97]%N [SModifyAttr ATTR_CHARSET x_latin1 x_utf8]; InSchema [97]%N (DropTable [116]%N);
+        DropSchema [98]%N; AddSchema [99]%N; InSchema [99]%N (AddTable [116]%N)] /\
+  mysql_realm_diff_v x_v80 (fun t => match t with RtAddSchema | RtTag TgDropTable => true | _ => false end) x_r1 x_r2 =
+  Some [ModifySchema [97]%N [SModifyAttr ATTR_CHARSET x_latin1 x_utf8];
+        DropSchema [98]%N; InSchema [99]%N (AddTable [116]%N)].
+Proof. split; vm_compute; reflexivity. Qed.
+Example C02_ex_realm_script :
+  script_ok sx_name [(x_sx 97 (Some x_latin1) [x_t], Some (x_sx 97 None [])); (x_sx 98 None [], None)] [x_sx 99 None [x_t]] /\
+  Permutation (r_schemas x_r2)
+    (kept [(x_sx 97 (Some x_latin1) [x_t], Some (x_sx 97 None [])); (x_sx 98 None [], None)] ++ [x_sx 99 None [x_t]]).
+Proof.
+  split.
+  - unfold script_ok. simpl. split.
+    + repeat constructor; simpl; intuition discriminate.
+    + intros c c' [E|[E|[]]]; inversion E; reflexivity.
+  - simpl. apply perm_swap.
+Qed.
+Example C02_ex_realm_self :
+  wf_realm sqlite_dwf (mkRealm None None [mkSchemaX x_s None None None]) /\
+  sqlite_realm_diff (fun _ => false) (mkRealm None None [mkSchemaX x_s None None None])
+                                     (mkRealm None None [mkSchemaX x_s None None None]) = Some [].
+Proof.
+  split; [|vm_compute; reflexivity].
+  split; [repeat constructor; simpl; tauto|]. intros s [<-|[]]. exact C02_ex_wf.
+Qed.
+Example C02_ex_pg_comment :
+  pg_schema_attr_diff [] x_r1 (mkSchemaX (mkSchema PUBLIC []) None None (Some STD_PUBLIC_COMMENT))
+                              (mkSchemaX (mkSchema PUBLIC []) None None (Some [120]%N)) = [SAddAttr ATTR_COMMENT [120]%N] /\
+  pg_schema_attr_diff [] x_r1 (mkSchemaX (mkSchema [97]%N []) None None (Some [39;120;39]%N))
+                              (mkSchemaX (mkSchema [97]%N []) None None (Some [120]%N)) = [] /\
+  pg_schema_attr_diff [] x_r1 (mkSchemaX (mkSchema [97]%N []) None None (Some [120]%N))
+                              (mkSchemaX (mkSchema [97]%N []) None None None) = [SModifyAttr ATTR_COMMENT [120]%N []].
+Proof. repeat split; vm_compute; reflexivity. Qed.
+
 Print Assumptions C02_self_empty.
 Print Assumptions C02_copy_empty.
 Print Assumptions C02_perm_empty.
@@ -783,3 +993,14 @@ Print Assumptions C02_mysql_int_default_except.
 Print Assumptions C02_mysql_uint_default_refuted.
 Print Assumptions C02_mysql_float_default_except.
 Print Assumptions C02_mysql_decimal_default_refuted.
+Print Assumptions C02_sqlite_numeric_fk_symbols.
+Print Assumptions C02_sqlite_numeric_fk_drop_refuted.
+Print Assumptions C02_exact_realm.
+Print Assumptions C02_exact_schema_attrs.
+Print Assumptions C02_realm_add_schema.
+Print Assumptions C02_perm_empty_realm.
+Print Assumptions C02_self_empty_realm.
+Print Assumptions C02_realm_laws.
+Print Assumptions C02_realm_perm_empty_dialects.
+Print Assumptions C02_mysql_schema_attr_exact.
+Print Assumptions C02_comment_diff_exact.
